@@ -604,6 +604,71 @@ func (r *run) random(rng *rand.Rand, n int, flushes int) {
 	}
 }
 
+// phased forces the arrival pattern the coalescing logic is most sensitive to: a burst to few
+// pages from several processes is accepted while the translation service is silent, then every
+// lookup is answered (in random order) while nobody drains Bottom, so that replies meet a full
+// output port and whole groups of coalesced accesses wait inside finished transactions; then
+// Bottom is drained slowly, memory answers in reverse order while Top is stalled, and finally
+// everything is released.  Optionally a flush is dropped into the middle.
+func (r *run) phased(rng *rand.Rand, n int, flush bool) {
+	ps := uint64(1) << uint(r.cfg.Log2PS)
+	npids := 2 + rng.Intn(2)
+	npages := []int{2, 2, 6, 12}[rng.Intn(4)] // few pages: large coalesced groups; many: single-access lookups
+	vbase := uint64(1+rng.Intn(1<<8)) << uint(r.cfg.Log2PS)
+	issued := 0
+	for i := 0; i < 8*n && issued < n; i++ {
+		page, pid := rng.Intn(npages), 1+rng.Intn(npids)
+		addr := vbase + uint64(page)*ps + uint64(rng.Intn(int(ps)))
+		var p *Payload
+		if rng.Intn(2) == 0 {
+			p = &Payload{K: "r", A: pair(addr), N: uint64(1 << rng.Intn(7)), PID: pid}
+		} else {
+			p = &Payload{K: "w", A: pair(addr), PID: pid}
+			for k := 0; k < 1+rng.Intn(6); k++ {
+				p.D = append(p.D, rng.Intn(256))
+				p.M = append(p.M, rng.Intn(2))
+			}
+		}
+		if r.envReq(1+rng.Intn(3), p) {
+			issued++
+		}
+		for r.takeLookup() {
+		}
+		r.tick(1)
+	}
+	r.tick(3)
+	// every lookup answered, nobody drains Bottom
+	for round := 0; round < 4*n && len(r.tlbOwed) > 0; round++ {
+		ks := sortedKeys(r.tlbOwed)
+		q := ks[rng.Intn(len(ks))]
+		r.tlbRsp(q, uint64(0x1000+q)<<uint(r.cfg.Log2PS))
+		r.tick(1 + rng.Intn(2))
+		for r.takeLookup() {
+		}
+	}
+	r.tick(3)
+	if flush {
+		r.envCtrl("discard")
+		r.tick(2)
+		r.ctrl.RetrieveOutgoing()
+	}
+	// Bottom drained one by one, memory answers newest first, Top stalled
+	for round := 0; round < 6*n; round++ {
+		got := r.takeDown()
+		r.tick(1)
+		if rng.Intn(3) == 0 || !got {
+			ks := sortedKeys(r.memOwed)
+			if len(ks) > 0 {
+				b := ks[len(ks)-1]
+				r.memRsp(b, []int{b & 0xff, rng.Intn(256)})
+			}
+		}
+		if !got && len(r.memOwed) == 0 && r.bot.PeekOutgoing() == nil {
+			break
+		}
+	}
+}
+
 // guarded runs f; a panic of the real code becomes a Panic trace line.
 func guarded(rec *ab.Recorder, f func()) {
 	defer func() {
@@ -665,7 +730,11 @@ func main() {
 		cfg := Scenario{Log2PS: []int{6, 12, 12, 16, 21}[rng.Intn(5)], Width: 1 + rng.Intn(4), NMem: 1 << rng.Intn(3), NTlb: 1 << rng.Intn(2), Dev: 1 + rng.Intn(4)}
 		r := begin(cfg)
 		guarded(rec, func() {
-			r.random(rng, *reqs, rng.Intn(3))
+			if i%4 == 3 {
+				r.phased(rng, *reqs, rng.Intn(3) == 0)
+			} else {
+				r.random(rng, *reqs, rng.Intn(3))
+			}
 			r.finish()
 		})
 	}
